@@ -72,8 +72,11 @@ class Ctx:
         self.unsupported = None
         self.interp = None
         self.tainted = False
+        self.scopes = []  # [(bound consts, guard)] : inside, obligations and facts are universally generalised
 
     def fresh(self, name, sort):
+        if self.scopes and not getattr(self, "_allow_fresh_in_scope", False):
+            raise Unsupported("a fresh symbol (%s) would be created inside a quantified comprehension body" % name)
         n = self.counter.get(name, 0)
         self.counter[name] = n + 1
         nm = name if n == 0 else "%s!%d" % (name, n)
@@ -88,6 +91,8 @@ class Ctx:
             f = f.goal
         if isinstance(f, Forall):
             f = f.as_formula()
+        if self.scopes and is_z3(f):
+            f = self._generalise(f)
         if f is True:
             return
         if f is False:
@@ -100,8 +105,20 @@ class Ctx:
         if not _has_quant(f):
             self.feas.add(f)
 
+    def _generalise(self, f):
+        for vs, guard in reversed(self.scopes):
+            if any(_mentions(f, v) for v in vs):
+                f = z3.ForAll(list(vs), z3.Implies(guard, f))
+            else:
+                f = f
+        return f
+
     def prove(self, name, goal, node=None, kind="post"):
         from .spec import Forall, Using
+        if self.scopes and is_z3(goal):
+            goal = self._generalise(goal) if any(_mentions(goal, v) for vs, _ in self.scopes for v in vs) else goal
+            self.obligs.append(Oblig(name, list(self.facts), z3.simplify(goal), _loc(node), kind))
+            return
         if isinstance(goal, Using):
             for f in goal.lemmas:
                 self.assume(f)
@@ -143,6 +160,8 @@ class Ctx:
             return True
         if z3.is_false(cond):
             return False
+        if self.scopes:
+            raise Unsupported("branching on a symbolic condition inside a quantified comprehension body")
         i = len(self.decisions)
         if i < len(self.prefix):
             v = self.prefix[i]
@@ -178,6 +197,24 @@ class Ctx:
 
     def classref(self, qualname):
         return self.interp.classref(qualname)
+
+
+def _mentions(f, v):
+    seen = set()
+    stack = [f]
+    vid = v.get_id()
+    while stack:
+        e = stack.pop()
+        if e.get_id() in seen:
+            continue
+        seen.add(e.get_id())
+        if e.get_id() == vid:
+            return True
+        if z3.is_quantifier(e):
+            stack.append(e.body())
+        else:
+            stack.extend(e.children())
+    return False
 
 
 def _has_quant(f):
@@ -597,6 +634,11 @@ class Interp:
         # short-circuit with path split only when later operands may have effects/raise; we evaluate lazily
         is_and = isinstance(node.op, ast.And)
         vals = node.values
+        if self.ctx.scopes:
+            # inside a quantified comprehension body: no path split; operands must be pure (obligations of later
+            # operands are NOT weakened by the short-circuit guard, which only makes them stronger)
+            ts = [_b(self.truth(self.eval(x, fr), node)) for x in vals]
+            return z3.And(*ts) if is_and else z3.Or(*ts)
         v = self.eval(vals[0], fr)
         for nxt in vals[1:]:
             t = self.truth(v, node)
